@@ -283,6 +283,8 @@ pub fn write_replay(p: &Profile, tier: Tier, seed: u64, index: u64, tape: &[u64]
 }
 
 pub struct ReplayFile {
+    pub history: Vec<u64>,
+    pub seed: u64,
     pub property: String,
     pub profile: String,
     pub clause: String,
@@ -296,6 +298,8 @@ pub fn read_replay(path: &str) -> Result<ReplayFile, String> {
     let j = json::parse(&s)?;
     let g = |k: &str| j.get(k).and_then(|x| x.as_str()).map(|s| s.to_string()).ok_or(format!("missing {}", k));
     Ok(ReplayFile {
+        history: j.get("history").and_then(|x| x.as_arr()).map(|a| a.iter().map(|x| x.as_int().unwrap_or(0) as u64).collect()).unwrap_or_default(),
+        seed: j.get("seed").and_then(|x| x.as_int()).unwrap_or(0) as u64,
         property: g("property")?,
         profile: g("profile")?,
         clause: g("clause")?,
@@ -304,7 +308,7 @@ pub fn read_replay(path: &str) -> Result<ReplayFile, String> {
         } else {
             Tier::Thorough
         },
-        tape: j.get("tape").and_then(|x| x.as_arr()).ok_or("missing tape")?.iter().map(|x| x.as_int().unwrap_or(0) as u64).collect(),
+        tape: j.get("tape").and_then(|x| x.as_arr()).map(|a| a.clone()).unwrap_or_default().iter().map(|x| x.as_int().unwrap_or(0) as u64).collect(),
         log_hash: j.get("log_hash").and_then(|x| x.as_int()).unwrap_or(0) as u64,
     })
 }
@@ -326,6 +330,19 @@ pub fn replay_main(profiles: &[Profile], path: &str) -> i32 {
             return 2;
         }
     };
+    if !rf.history.is_empty() {
+        return match hist_child(p, rf.tier, rf.seed, &rf.history, &rf.property, &rf.clause) {
+            Some(d) => {
+                println!("replay: reproduced after running {:?} in one fresh process: {} / {}: {}", rf.history, rf.property, rf.clause, d);
+                println!("VIOLATION property={} replay={}", rf.property, path);
+                1
+            }
+            None => {
+                println!("replay: the recorded history-dependent violation did not reproduce on the current tree");
+                2
+            }
+        };
+    }
     if UNCONTROLLED.contains(&rf.clause.as_str()) {
         // force the fresh-process phase on and re-run until the race is hit again
         std::env::set_var("VERIF_C18_FORCE_FRESH", "1");
@@ -655,8 +672,34 @@ pub fn check_main(profiles: &[Profile], id: &str, tier: Tier) -> i32 {
                 }
             }
             None => {
-                println!("HARNESS-ERROR: run {} did not reproduce {} / {} in the parent (nondeterminism)", index, property, clause);
-                exit_code = exit_code.max(2);
+                // not reproducible in isolation: does it depend on what the worker process had
+                // validated before (state carried between validations)?
+                match reproduce_with_history(p, tier, seed, nw, index, &property, &clause) {
+                    Some((hist, d)) => {
+                        let path = format!("{}/replays/{}-{}-{}-history.json", verif_dir(), property, seed, index);
+                        let _ = std::fs::create_dir_all(format!("{}/replays", verif_dir()));
+                        let j = J::obj()
+                            .set("property", J::s(&property))
+                            .set("profile", J::s(p.id))
+                            .set("clause", J::s(&clause))
+                            .set("tier", J::s(tier_name(tier)))
+                            .set("seed", J::i(seed as i128))
+                            .set("run_index", J::i(index as i128))
+                            .set("history", J::Arr(hist.iter().map(|x| J::i(*x as i128)).collect()))
+                            .set("violation", J::s(&d))
+                            .set("note", J::s("the run alone does not show this; it shows when the listed runs are executed one after the other in one fresh process: the outcome depends on earlier validations in the same process"));
+                        let _ = std::fs::write(&path, j.render());
+                        println!("VIOLATION property={} replay={}", property, path);
+                        println!("  clause {} (seed {}, run {} after runs {:?} in the same process — state is carried between validations): {}", clause, seed, index, &hist[..hist.len() - 1], crate::libi::truncate(&d, 1500));
+                        exit_code = exit_code.max(1);
+                        violations_total += 1;
+                        reported.insert((property, clause));
+                    }
+                    None => {
+                        println!("HARNESS-ERROR: run {} did not reproduce {} / {} in the parent, neither alone nor after its worker's history (nondeterminism)", index, property, clause);
+                        exit_code = exit_code.max(2);
+                    }
+                }
                 continue;
             }
         };
@@ -962,4 +1005,81 @@ pub fn miri_tier(seeds: u32) -> (J, Option<String>) {
             .set("workload", J::s("3 threads released together x 2 validations each (6 requests with 6 different timestamps), then the 6 single-threaded; Miri's seeded preemptive scheduler and hash keys")),
         None,
     )
+}
+
+// ------------------------------------------------------------------------------------------------
+// violations that depend on what the process did before (state carried between validations)
+// ------------------------------------------------------------------------------------------------
+
+/// `sigsim hist <id> <tier> <seed> <i1,i2,…>`: run the listed run indices one after the other in
+/// this (fresh) process; report the violations of the *last* one. Exit 1 if it has any.
+pub fn hist_main(p: &Profile, tier: Tier, seed: u64, indices: &[u64]) -> i32 {
+    let mut last = RunOut::default();
+    for i in indices {
+        let (o, _) = run_seed(p, tier, seed, *i);
+        last = o;
+    }
+    for l in &last.scenario {
+        println!("  {}", l);
+    }
+    for v in &last.violations {
+        let j = J::obj().set("property", J::s(v.property)).set("clause", J::s(v.clause)).set("detail", J::s(&v.detail));
+        println!("V {}", j.compact());
+    }
+    if last.violations.is_empty() {
+        0
+    } else {
+        1
+    }
+}
+
+fn hist_child(p: &Profile, tier: Tier, seed: u64, indices: &[u64], property: &str, clause: &str) -> Option<String> {
+    let list: Vec<String> = indices.iter().map(|i| i.to_string()).collect();
+    let out = Command::new(std::env::current_exe().ok()?).args(["hist", p.id, tier_name(tier), &seed.to_string(), &list.join(",")]).stdout(Stdio::piped()).stderr(Stdio::null()).output().ok()?;
+    let text = String::from_utf8_lossy(&out.stdout);
+    for line in text.lines() {
+        if let Some(rest) = line.strip_prefix("V ") {
+            if let Ok(j) = json::parse(rest) {
+                let g = |k: &str| j.get(k).and_then(|x| x.as_str()).unwrap_or("").to_string();
+                if g("property") == property && g("clause") == clause {
+                    return Some(g("detail"));
+                }
+            }
+        }
+    }
+    None
+}
+
+/// A worker saw (property, clause) at `index`, but the run alone does not show it: replay the
+/// worker's own history (its stride of indices) in a fresh process, then shorten that history.
+/// Returns (history indices incl. `index`, violation text).
+pub fn reproduce_with_history(p: &Profile, tier: Tier, seed: u64, nw: u64, index: u64, property: &str, clause: &str) -> Option<(Vec<u64>, String)> {
+    let wix = index % nw;
+    let full: Vec<u64> = (0..).map(|k| wix + k * nw).take_while(|i| *i <= index).collect();
+    let full: Vec<u64> = if full.len() > 20000 {
+        full[full.len() - 20000..].to_vec()
+    } else {
+        full
+    };
+    hist_child(p, tier, seed, &full, property, clause)?;
+    // shortest suffix that still shows it (doubling, then nothing finer: it is a pointer, not a proof)
+    let mut len = 2;
+    loop {
+        if len >= full.len() {
+            let d = hist_child(p, tier, seed, &full, property, clause)?;
+            return Some((full, d));
+        }
+        let suffix = full[full.len() - len..].to_vec();
+        if let Some(d) = hist_child(p, tier, seed, &suffix, property, clause) {
+            // try to drop everything but one predecessor
+            for j in 0..suffix.len() - 1 {
+                let pair = vec![suffix[j], index];
+                if let Some(d2) = hist_child(p, tier, seed, &pair, property, clause) {
+                    return Some((pair, d2));
+                }
+            }
+            return Some((suffix, d));
+        }
+        len *= 2;
+    }
 }
